@@ -61,6 +61,21 @@ class StratEval:
         pol = True
         while isinstance(e, ast.UnaryOp) and isinstance(e.op, ast.Not):
             e, pol = e.operand, not pol
+        if isinstance(e, ast.BoolOp):
+            # short-circuit evaluation, left to right (an atom that is never reached is never asked for)
+            if isinstance(e.op, ast.And):
+                r = True
+                for v in e.values:
+                    if not self.cond(v, env, a):
+                        r = False
+                        break
+            else:
+                r = False
+                for v in e.values:
+                    if self.cond(v, env, a):
+                        r = True
+                        break
+            return r if pol else not r
         name = None
         if isinstance(e, ast.Compare) and len(e.ops) == 1 and isinstance(e.left, ast.Name) \
                 and isinstance(e.comparators[0], ast.Constant) and e.comparators[0].value is None:
@@ -362,8 +377,11 @@ def implied(conj, root, filters, is_float):
                 exv = ex[1] if ex[0] == "const" else "?"
                 if op == ">=":
                     return exv in (False, None), f"base min_value={show(p)}, exclude_min={exv}"
+                if exv is True and is_float is True:
+                    return True, f"base min_value={show(p)}, exclude_min=True (float dtype)"
                 if exv is True:
-                    return True, f"base min_value={show(p)}, exclude_min=True"
+                    return False, (f"base min_value={show(p)} with exclude_min=True, but exclude_min is honoured for float dtypes only (integers / "
+                                   "datetimes ignore it) and this path neither tests is_float nor filters: the bound itself can be drawn")
                 return False, f"base bound min_value={show(p)} is inclusive (exclude_min={exv}) and no filter enforces strictness"
         if op in ("<", "<="):
             if bk.get("max_value") == p:
@@ -371,8 +389,11 @@ def implied(conj, root, filters, is_float):
                 exv = ex[1] if ex[0] == "const" else "?"
                 if op == "<=":
                     return exv in (False, None), f"base max_value={show(p)}, exclude_max={exv}"
+                if exv is True and is_float is True:
+                    return True, f"base max_value={show(p)}, exclude_max=True (float dtype)"
                 if exv is True:
-                    return True, f"base max_value={show(p)}, exclude_max=True"
+                    return False, (f"base max_value={show(p)} with exclude_max=True, but exclude_max is honoured for float dtypes only (integers / "
+                                   "datetimes ignore it) and this path neither tests is_float nor filters: the bound itself can be drawn")
                 return False, f"base bound max_value={show(p)} is inclusive (exclude_max={exv}) and no filter enforces strictness"
         if op == "==" and inner and inner[1] == "just" and inner[2] and inner[2][0] == p:
             return True, "base st.just(value)"
